@@ -458,6 +458,10 @@ fn gen_c02(rng: &mut Rng, seed: u64, index: u64, long: bool) -> Scenario {
             });
         }
         g.ops.push(Op::ChkByte { h: 0 });
+        if g.rng.chance(0.3) {
+            let s = g.rng.next_u64();
+            g.ops.push(Op::ChkResplit { h: 0, seed: s });
+        }
         if g.rng.chance(0.06) {
             let k = g.rng.range(1, 3);
             g.ops.push(Op::Rollback { h: 0, k });
@@ -621,7 +625,21 @@ fn gen_c11(rng: &mut Rng, seed: u64, index: u64, long: bool) -> Scenario {
                 }
                 g.ops.push(Op::ChkFresh { h: 0 });
             }
-            4..=8 => {
+            4 => {
+                // query, roll back, then re-commit the same number of tokens *blind* (resolved on a
+                // scratch clone, no query on the handle in between): per-length memos must not survive
+                g.ops.push(if g.rng.chance(0.5) {
+                    Op::FfBytes { h: 0 }
+                } else {
+                    Op::Mask { h: 0, fuel_at: None }
+                });
+                let k = g.rng.range(1, 3);
+                g.ops.push(Op::Rollback { h: 0, k });
+                let picks = (0..k).map(|_| g.honest()).collect();
+                g.ops.push(Op::CommitMany { h: 0, picks });
+                g.ops.push(Op::ChkFresh { h: 0 });
+            }
+            5..=8 => {
                 let n = g.rng.range(1, 4);
                 g.perturb(0, n);
                 g.ops.push(Op::ChkFresh { h: 0 });
@@ -755,6 +773,14 @@ fn gen_c12(rng: &mut Rng, seed: u64, index: u64, long: bool) -> Scenario {
             });
         } else if g.rng.chance(0.1) {
             g.ops.push(Op::Reset { h: 0 });
+        } else if g.rng.chance(0.25) {
+            // forced-byte query at the old length, roll back, blind re-commit to the same token count
+            g.ops.push(Op::FfBytes { h: 0 });
+            g.ops.push(Op::Rollback { h: 0, k: committed });
+            let picks = (0..committed).map(|_| g.honest()).collect();
+            g.ops.push(Op::CommitMany { h: 0, picks });
+            g.ops.push(Op::ChkFresh { h: 0 });
+            g.ops.push(Op::Rollback { h: 0, k: committed });
         } else {
             g.ops.push(Op::Rollback { h: 0, k: committed });
         }
@@ -900,6 +926,9 @@ fn gen_c14(rng: &mut Rng, seed: u64, index: u64, long: bool) -> Scenario {
     if sub == 1 {
         return gen_stop_ctrl(rng, seed, index, long, "C14", true);
     }
+    if sub == 2 {
+        return gen_capi_threads(rng, seed, index, long);
+    }
     let faulty = rng.chance(0.25);
     let mut o = WorldOpts::default();
     o.tight_limits = faulty && rng.chance(0.5);
@@ -1015,6 +1044,58 @@ fn gen_c14(rng: &mut Rng, seed: u64, index: u64, long: bool) -> Scenario {
         for h in &mine {
             g.ops.push(Op::ChkFresh { h: *h });
         }
+        sc.tasks.push(std::mem::take(&mut g.ops));
+    }
+    sc
+}
+
+/// C-API constraints (llg_clone_constraint = shallow clones sharing the lexer) and Rust constraints,
+/// each owned by one simulated task, driven through the sampling loop concurrently
+fn gen_capi_threads(rng: &mut Rng, seed: u64, index: u64, long: bool) -> Scenario {
+    let mut o = WorldOpts::default();
+    o.canonical = Some(rng.chance(0.4));
+    let (world, productive) = gen_world(rng, &o);
+    let canonical = world.canonical;
+    let mut sc = base("C14", "capi_threads", seed, index, world, productive);
+    sc.threads = true;
+    sc.schedule = Some(gen_schedule(rng));
+    sc.c_tok_v2 = rng.chance(0.5);
+    let n_tasks = if long { rng.range(2, 6) } else { rng.range(2, 3) };
+    let via_c = rng.chance(0.6);
+    let ff = canonical && rng.chance(0.4);
+    let mut g = G { rng, ops: vec![] };
+    g.ops.push(Op::New {
+        h: 0,
+        kind: if via_c {
+            HKind::CConstraint { ff }
+        } else {
+            HKind::Constraint { ff }
+        },
+        alt: None,
+    });
+    // a shared prefix, so that clones start from a non-trivial shared lexer
+    for _ in 0..g.rng.below(4) {
+        let p = g.honest();
+        g.ops.push(Op::CStep { h: 0, pick: p });
+    }
+    for hnew in 1..n_tasks {
+        let src = g.rng.below(hnew);
+        g.ops.push(Op::Clone {
+            src,
+            dst: hnew,
+            deep: !via_c && g.rng.chance(0.3),
+        });
+    }
+    sc.setup = std::mem::take(&mut g.ops);
+    for t in 0..n_tasks {
+        let n_ops = if long { g.rng.range(5, 16) } else { g.rng.range(3, 8) };
+        for _ in 0..n_ops {
+            let p = g.honest();
+            g.ops.push(Op::CMaskOnly { h: t });
+            g.ops.push(Op::ChkText { h: t });
+            g.ops.push(Op::CCommitOnly { h: t, pick: p });
+        }
+        g.ops.push(Op::ChkText { h: t });
         sc.tasks.push(std::mem::take(&mut g.ops));
     }
     sc
@@ -1616,8 +1697,57 @@ pub fn mutate_text(rng: &mut Rng, text: &str, kind: GKind) -> String {
     String::from_utf8_lossy(&b).to_string()
 }
 
+fn gen_hostile_c(rng: &mut Rng, seed: u64, index: u64, _long: bool) -> Scenario {
+    let mut o = WorldOpts::default();
+    o.vocab_kinds = vec!["byte", "synth"];
+    o.allow_random_cfg = false;
+    let (world, _) = gen_world(rng, &o);
+    let mut sc = base("C20", "hostile_c_api", seed, index, world, false);
+    sc.fault_injecting = true;
+    sc.c_tok_v2 = rng.chance(0.5);
+    let mut ops = vec![];
+    for _ in 0..rng.range(3, 8) {
+        let e = pick_entry(rng, &WorldOpts { avoid_tags: vec![], ..WorldOpts::default() });
+        let kind_tag = match e.kind {
+            GKind::Lark => "lark",
+            GKind::Regex => "regex",
+            GKind::Json => "json_schema",
+        };
+        let text = instantiate_grammar_text(e.text, &sc.world.vocab);
+        let data = if rng.chance(0.85) {
+            mutate_text(rng, &text, e.kind)
+        } else {
+            text
+        };
+        let data: String = data.chars().filter(|c| *c != '\0').collect();
+        let tag = match rng.below(12) {
+            0 => "json".to_string(),
+            1 => "llguidance".to_string(),
+            2 => "json_object".to_string(),
+            3 => "nonsense".to_string(),
+            4 => "".to_string(),
+            5 => "lark".to_string(),
+            6 => "regex".to_string(),
+            _ => kind_tag.to_string(),
+        };
+        let what = rng.pick(&["validate", "validate", "matcher", "matcher", "constraint", "stop", "tokenizer_json"]).to_string();
+        let buf_len = *rng.pick(&[0usize, 1, 2, 8, 40, 256, 4096]);
+        ops.push(Op::HostileC {
+            what,
+            tag,
+            data,
+            buf_len,
+        });
+    }
+    sc.tasks = vec![ops];
+    sc
+}
+
 fn gen_c20(rng: &mut Rng, seed: u64, index: u64, long: bool) -> Scenario {
     let sub = rng.below(10);
+    if sub == 9 {
+        return gen_hostile_c(rng, seed, index, long);
+    }
     let mut o = WorldOpts::default();
     o.avoid_tags = vec![];
     o.prefer_tags = vec!["heavy"];
